@@ -1,4 +1,5 @@
 """C12 Batch conversion isolates bad files and is independent of job scheduling."""
+from tdv.core.findings import classifier
 import collections
 import json
 import os
@@ -235,7 +236,8 @@ def run_shard(ctx, p):
                     outs = sorted(k for k in ref['written_by'].get(f['name'], []) if k in ref['tree'])
                     if r is None or r['exception'] or r['ignored'] or r['las_count'] < 1 or (f.get('expect_las') is not None and r['las_count'] != f['expect_las']) or len(outs) != r['las_count']:
                         rec.violation('valid_files_converted', 'valid-not-converted', '%s: valid file %s -> %s, outputs %s (expected %s LAS files)' % (conv, f['name'], r, outs, f.get('expect_las')),
-                                      {'converter': conv, 'file': f['name'], 'kind': f['kind'], 'result': r, 'outputs': outs, 'expect_las': f.get('expect_las'), 'input': f['data'], 'options': opts})
+                                      {'converter': conv, 'file': f['name'], 'kind': f['kind'], 'result': r, 'outputs': outs, 'expect_las': f.get('expect_las'), 'input': f['data'], 'options': opts,
+                                       'facts': f.get('facts') or {}})
         nvalid = sum(1 for f in case['files'] if f['kind'].startswith('valid:' + conv))
         ndam = sum(1 for f in case['files'] if f['kind'].startswith('damaged'))
         rec.case(json.dumps([(f['name'], f['kind'], len(f['data'])) for f in case['files']]) + repr(sorted(opts.items())),
@@ -244,6 +246,16 @@ def run_shard(ctx, p):
                  sample={'converter': conv, 'files': [(f['name'], f['kind'], len(f['data'])) for f in case['files']], 'options': opts,
                          'completion_orders_seen': [list(o) for o in sorted(orders)][:3]})
         shutil.rmtree(tmp, ignore_errors=True)
+
+
+@classifier('c12_lis_log_pass_without_frames')
+def _c12_lis_empty_pass(v):
+    """LIS ToLAS on a logical file whose log pass (DFSR) has no frame data: RLEType01.frameSpacing() subtracts None and raises TypeError."""
+    w = v.get('witness') or {}
+    r = w.get('result') or {}
+    fr = (w.get('facts') or {}).get('frames_per_log_pass') or []
+    return (v['monitor'] == 'valid_files_converted' and w.get('converter') == 'lis' and 0 in fr and r.get('exception') is True
+            and r.get('las_count') == 0)
 
 
 LEVEL_TEXT = ('The real batch converters are run in child processes on generated directories (valid + damaged + foreign files) sequentially, '
